@@ -91,38 +91,8 @@ def obligations(r, tier, seed):
     from gsv.specs import gn
     from gsv.kernel import POSE_C as _C
 
-    def second_call_system(k, shape, first_call, remark):
-        """Build, optionally run a first optimize, change marks, run optimize(fix_first_pose=False, max_iter=1) and compare the
-        system of THAT call with the spec reduced system for the marks in force at that moment."""
-        ghost = common.Ghost()
-        g, vs, es = graphs.build(k, shape, ghost)
-        dims = [_C[T] for _, T, _ in shape["vertices"]]
-        cut = lambda self: _cut_chi2(self, k)
-        if first_call is not None:
-            with common.counting_spsolve(k, ghost), common.patched(k.r.Graph, calc_chi2=cut):
-                g.optimize(tol=0, max_iter=1, verbose=False, **first_call)
-        remark(vs)
-        marked = [i for i, v in enumerate(vs) if v.fixed]
-        H, b, offsets = gn.assemble(dims, graphs.spec_inputs(k, shape, vs, es))
-        A_spec, rhs_spec, fixed_idx = gn.reduced_system(H, b, offsets, dims, marked)
-        before = [v.pose.copy() for v in vs]
-        n_before = len(ghost.solver_calls)
-        with common.counting_spsolve(k, ghost), common.patched(k.r.Graph, calc_chi2=cut):
-            g.optimize(tol=0, max_iter=1, fix_first_pose=False, verbose=False)
-        k.check(len(ghost.solver_calls) == n_before + 1, "one solve in the call under test")
-        A, rhs, dx = ghost.solver_calls[-1]
-        A, rhs = k.dense(A), k.dense(rhs)
-        N = sum(dims)
-        k.system_equiv([[A[i, j] for j in range(N)] for i in range(N)], [rhs[i] for i in range(N)], A_spec, rhs_spec, [dx[i] for i in range(N)],
-                       "system of this call <=> reduced system for the vertices marked fixed at the time of the call", fixed_idx=fixed_idx)
-        for p_, v in enumerate(vs):
-            if p_ in marked:
-                k.same(v.pose.to_array(), before[p_].to_array(), "marked vertex %d did not move" % p_)
-            else:
-                k.eq(v.pose.to_array(), (before[p_] + k.np.array([dx[offsets[p_] + i] for i in range(dims[p_])])).to_array(), "unmarked vertex %d moved by its slice of dx" % p_)
+    from gsv.contracts.c03 import second_call_system, hist_shape
 
-    hist_shape = {"vertices": [(0, "R2", False), (1, "R2", False), (2, "R2", False)], "edges": [("cut", (0, 1), 2), ("cut", (1, 2), 2), ("cut", (2, 0), 2)],
-                  "fix_first_pose": False, "idset": 0}
 
     def hist_unmark_constructed(k):
         sh = dict(hist_shape, vertices=[(0, "R2", True), (1, "R2", False), (2, "R2", True)])
@@ -139,6 +109,20 @@ def obligations(r, tier, seed):
             vs[2].fixed = True
         second_call_system(k, hist_shape, {"fix_first_pose": True}, remark)
     obs.append(Ob("C06/history/first-call-marks-vertex0-then-remarked", hist_two_calls, scope="shape-bounded", bound="3-vertex R2 cycle, two calls", funcs=FUNCS,
+                  solver="constrained", light=True))
+
+    def hist_first_pose_kept(k):
+        # vertex 0 was marked by the first call's fix_first_pose=True and is still marked when the second call is made
+        second_call_system(k, hist_shape, {"fix_first_pose": True}, lambda vs: None)
+    obs.append(Ob("C06/history/first-call-marks-vertex0-still-marked", hist_first_pose_kept, scope="shape-bounded", bound="3-vertex R2 cycle, two calls", funcs=FUNCS,
+                  solver="constrained", light=True))
+
+    def hist_first_pose_marked_again(k):
+        def remark(vs):
+            vs[0].fixed = True             # the caller marks it (again) between the calls
+            vs[1].fixed = True
+        second_call_system(k, hist_shape, [({"fix_first_pose": True}, None), ({"fix_first_pose": False}, None)], remark)
+    obs.append(Ob("C06/history/three-calls-marks-set-by-caller", hist_first_pose_marked_again, scope="shape-bounded", bound="3-vertex R2 cycle, three calls", funcs=FUNCS,
                   solver="constrained", light=True))
 
     def hist_mark_after_first(k):
